@@ -40,6 +40,10 @@ chk("C09","exploration",
     "Whole-server runs on grp/chn/p2p topics with the C02 population: every {note} (read/recv/kp/kpa/unknown, sequence numbers around the current marks, the last id and beyond) from attached, detached, read-less, write-less, channel-reader and foreign sessions is classified valid/invalid from store rows + attachment history; at quiescence invalid notes must have caused no frame and no store write, valid ones must store exactly the mark, change only the author's row and reach exactly the attached readers' sessions with true sender and the recipient's own topic name; stored and reported marks satisfy 0<=read<=recv<=seq and never decrease within a subscription lifetime, across publishes, permission changes, reloads and channel-reader re-attachment.",
     "vfmem mirrors the adapter contract; 'kpa/kpv' echo to the sender's own other sessions is not judged (the property speaks of typing notes); one recorded finding (read note beyond recv stores read>recv) is excluded by signature.",
     "offline oracle over client frames + store-call log + row monitor","sim","DESIGN.md 3/C09")
+chk("C10","exploration",
+    "Whole-server runs with several users and sessions on me, p2p and group topics under random attach/detach/disconnect/mute/unmute/ban/unban/publish/note steps: (leak) every {pres} (other than acs/gone/term) and {info} frame received by anybody is attributed to its topic and the receiver's store row must grant P (and R for info; receipts relayed inside an attached topic need R only) before or after the step; (convergence) at settled points - logical quiescence and all idle topics unloaded - the online flag in a fresh {meta sub} on me and the last {pres on|off} received about every p2p partner with P on both sides and about the group equal the truth; (accounting) cached per-user online counters of loaded topics and the online flags of the group's {meta sub} equal the number of attached sessions.",
+    "vfmem mirrors the adapter contract; 'eventually' is restated as 'at settled points'; sequential requests (one outstanding at a time); Session.background is not settable for local sessions in this code base so background sessions behave as foreground.",
+    "trace monitor over presence frames with row ground truth + settled-point convergence and counter invariants","sim","DESIGN.md 3/C10")
 chk("C05","exploration",
     "Runtime oracle over the real AccessMode code: every one of the 256x256 permission pairs is pushed through Delta/ApplyDelta/ApplyMutation and every set through text/JSON/SQL round trips (finite core enumerated completely); all short strings over the mode alphabet plus junk are compared with an independent reference for the stated laws (unknown letters rejected and target unchanged, empty = no change, N = none). The on-the-wire intersection law and the notification-replay clause are monitored in the C07 engine runs and reported there.",
     "Reference parser in harness/types/c05.go is trusted; strings longer than 5 are sampled, not enumerated; proxy replay through updateAcsFromPresMsg is exercised by the sim engine (C07), not here.",
